@@ -97,6 +97,9 @@ func init() {
 	extraLeaf["slice-ptr"] = func(l *LeafDesc) any {
 		out := make([]*int, len(l.Elems))
 		for i, e := range l.Elems {
+			if e.Tag == "nilptr" {
+				continue // a nil pointer element (same index in every instantiation)
+			}
 			v := int(e.I)
 			out[i] = &v
 		}
@@ -198,7 +201,13 @@ func c05Leaf(r *core.Rng) *LeafDesc {
 	case 5:
 		return &LeafDesc{Tag: "slice-any", Elems: many(c05Prim, n)}
 	case 6:
-		return &LeafDesc{Tag: "slice-ptr", Elems: many(intLeaf, n)}
+		es := many(intLeaf, n)
+		for i := range es {
+			if i < len(es)-1 && r.Chance(1, 3) {
+				es[i] = &LeafDesc{Tag: "nilptr"}
+			}
+		}
+		return &LeafDesc{Tag: "slice-ptr", Elems: es}
 	case 7:
 		return &LeafDesc{Tag: "array3-int", Elems: many(intLeaf, 3)}
 	case 8:
@@ -224,9 +233,27 @@ func c05Leaf(r *core.Rng) *LeafDesc {
 
 var c05Gen = TreeGen{MaxDepth: 3, MaxWidth: 4, MinWidth: 1, Conds: 20, CondStackExpr: 30, CondCondExpr: 10, StackProb: 35, Leaf: c05Leaf}
 
+// flipCase changes the case of the first letter found; ok=false if there is none.
+func flipCase(s string) (string, bool) {
+	b := []byte(s)
+	for i, ch := range b {
+		switch {
+		case ch >= 'a' && ch <= 'z':
+			b[i] = ch - 32
+			return string(b), true
+		case ch >= 'A' && ch <= 'Z':
+			b[i] = ch + 32
+			return string(b), true
+		}
+	}
+	return s, false
+}
+
 // mutatePrim changes a primitive description into a different value of the same type.
 func mutatePrim(l *LeafDesc) {
 	switch l.Tag {
+	case "nilptr":
+		l.Tag, l.I = "int", 7 // nil pointer vs pointer to a value
 	case "str":
 		l.S += "~"
 	case "bool":
@@ -255,6 +282,11 @@ func c05Sites(root *TNode) []c05Site {
 			l := n.Leaf
 			if len(l.Elems) == 0 {
 				sites = append(sites, c05Site{name: path + ":leaf-value", pos: -1, apply: func() { mutatePrim(l) }})
+				if l.Tag == "str" {
+					if _, ok := flipCase(l.S); ok {
+						sites = append(sites, c05Site{name: path + ":leaf-case", pos: -1, apply: func() { l.S, _ = flipCase(l.S) }})
+					}
+				}
 				return
 			}
 			for i := range l.Elems {
@@ -307,6 +339,14 @@ func c05Sites(root *TNode) []c05Site {
 			}
 		case "cond":
 			sites = append(sites, c05Site{name: path + ":keyword", pos: -1, apply: func() { n.Kw += "x" }})
+			if _, ok := flipCase(n.Kw); ok {
+				sites = append(sites, c05Site{name: path + ":keyword-case", pos: -1, apply: func() { n.Kw, _ = flipCase(n.Kw) }})
+			}
+			if n.Op.User {
+				if _, ok := flipCase(n.Op.Txt); ok {
+					sites = append(sites, c05Site{name: path + ":operator-case", pos: -1, apply: func() { n.Op.Txt, _ = flipCase(n.Op.Txt) }})
+				}
+			}
 			sites = append(sites, c05Site{name: path + ":operator", pos: -1, apply: func() {
 				if n.Op.User {
 					n.Op.Txt += "="
@@ -483,12 +523,12 @@ func init() {
 		Run:   c05Run,
 		Rule: "metamorphic: a random tree description (depth <= 3; Conditions with built-in/user operators and primitive/Stack/Condition expressions; leaves = primitives of several widths, pointers of depth 1..3 to primitives, " +
 			"[]int/[]string/[]any/[]*int, [3]int/[2]string, map[string]int/map[string]any/map[int]string, structs with exported, pointer and unexported fields, a struct with slice and array fields) is instantiated twice (A, B: fresh pointers, slices, maps) " +
-			"-> IsEqual must be nil both ways; then EVERY single-point mutation of the description is instantiated (C): a leaf value, each position of each composite leaf, a map key, one slice element more, a Condition keyword/operator/operator context/expression, " +
+			"-> IsEqual must be nil both ways; then EVERY single-point mutation of the description is instantiated (C): a leaf value, the letter case of a string leaf / keyword / user operator text, each position of each composite leaf (incl. slices of pointers with nil elements at fixed indices), a map key, one slice element more, a Condition keyword/operator/operator context/expression, " +
 			"a stack kind, capacity, one element more/fewer, a swap of two different siblings -> A~C, C~A, B~C, C~B must all be errors; every sixth case compares Condition roots. No call may panic. " +
 			"non-trivial = mutation at a position > 0 of a composite leaf of length >= 2; distinct = (tree, mutation site).",
 		Assumptions: []string{"composite leaves hold primitives or pointers to primitives (nested composites such as slices of slices are outside the statement's leaf grammar)", "NaN leaves are not generated (NaN differs from itself)"},
 		Floors: func(string) map[string]int64 {
-			return map[string]int64{"equal-pairs": 3000, "mutants": 30000, "mutants.composite-beyond-first-position": 2000, "mutants.kind": 1000, "mutants.operator": 500, "mutants.swap[]": 500}
+			return map[string]int64{"equal-pairs": 3000, "mutants": 30000, "mutants.composite-beyond-first-position": 2000, "mutants.kind": 1000, "mutants.operator": 500, "mutants.swap[]": 500, "mutants.keyword-case": 500, "mutants.leaf-case": 500, "mutants.slice-ptr[]": 300}
 		},
 	})
 }
